@@ -275,6 +275,15 @@ theorem rxn_rejects (r : PRxn) (h : r.reactants.length > 255 ∨ r.reagents.leng
     rxnEncode r = .error .count := by
   simp [rxnEncode, h]
 
+/-- **version-0 reader, exact reads**: the loop `for j in range(order_shift, cis_trans_shift, 2): a, b = data[j], data[j + 1]`
+    (`readPairsV0`: two reads per iteration, `⌈order_count/2⌉` iterations) reads exactly the contiguous block
+    `order_shift … cis_trans_shift − 1`, with the same outcome (bytes or over-read), for the block size the decoder computes
+    (`orderCountOf`, even for version 0); `n` iterations in general read `2n` consecutive bytes. -/
+theorem v0_reads_exact (data : List Nat) :
+    (∀ v bc os, readOrderBytes data v os (orderCountOf v bc) = readRange data os (orderCountOf v bc)) ∧
+    (∀ n lo, readPairsV0 data lo n = readRange data lo (2 * n)) :=
+  ⟨readOrderBytes_eq data, readPairsV0_eq data⟩
+
 /-! ## the stereo perception inside the model (`Model/PackStereo.lean`: `cumulenes`, `stereogenic_cumulenes`,
 `_stereo_cis_trans_terminals`, `_stereo_cis_trans_centers`), round 5 -/
 
